@@ -16,6 +16,15 @@
    specification `Valid` (model driver, op `judge`); oracle and Lean spec must agree.
 4. (c) permutations / reversals / re-cuttings / role changes of one segment multiset must give the
    same ring set.
+5. ring building step by step (op `rb`): the REAL create_locations_list / find_split_locations /
+   create_rings_simple_case (get_next_segment, add_new_ring, find_enclosing_ring, fix_direction) /
+   add_new_ring_complex on a BasicAssembler vs the compiled Lean model (exact diff: m_locations,
+   open-ring reports, m_split_locations, every ring as (segment, reverse) sequence with its
+   outer/inner link and m_sum, the partial rings of the complex case), plus monitors that state the
+   proved properties on the implementation's output (stable order of m_locations, open ends = odd
+   nodes, split locations = nodes of degree >= 4, rings closed / >= 3 segments / partition / connected
+   components / orientation / nesting, partial rings = maximal paths between split locations and
+   contiguous in the final rings of the real create_rings_complex_case).
 """
 import json
 import os
@@ -1028,6 +1037,398 @@ def evaluate_case(ctx, case, op, res, lean_pre, lean_judge):
     return 'ok'
 
 
+
+# --------------------------------------------------------------------------------------------------
+# ring building step by step (op `rb`)
+# --------------------------------------------------------------------------------------------------
+
+
+def rb_op(segs):
+    return 'rb ' + ' '.join('%d %d %d %d' % (a + b) for a, b in segs)
+
+
+def parse_rb(line):
+    """-> dict of the fields of an rb output line"""
+    f = {'raw': line, 'kind': 'early'}
+    toks = line.split(' ')
+    i = 0
+    while i < len(toks):
+        t = toks[i]
+        if '=' in t:
+            k, v = t.split('=', 1)
+            f[k] = v
+        else:
+            f.setdefault('flags', []).append(t)
+        i += 1
+    if 'flags' in f:
+        for fl in f['flags']:
+            if fl in ('simple', 'complex', 'toomany'):
+                f['kind'] = fl
+    elif 'ret' in f:
+        f['kind'] = 'rejected'
+    if f.get('ret') == '0':
+        f['kind'] = 'rejected'
+    return f
+
+
+def parse_entries(tok):
+    out = []
+    for e in tok.split(','):
+        i, r = e.split('.')
+        out.append((int(i), r == '1'))
+    return out
+
+
+def parse_locs(tok):
+    if tok == '-':
+        return []
+    return [tuple(int(c) for c in p.split(':')) for p in tok.split(';')]
+
+
+def entry_start_stop(segs, e):
+    a, b = segs[e[0]]
+    return (b, a) if e[1] else (a, b)
+
+
+def components(segs):
+    """connected components of the graph 'segments sharing an end point' -> list of frozensets of indices"""
+    at = {}
+    for i, (a, b) in enumerate(segs):
+        at.setdefault(a, []).append(i)
+        at.setdefault(b, []).append(i)
+    seen = set()
+    comps = []
+    for i in range(len(segs)):
+        if i in seen:
+            continue
+        stack = [i]
+        seen.add(i)
+        comp = set()
+        while stack:
+            j = stack.pop()
+            comp.add(j)
+            for p in segs[j]:
+                for k in at[p]:
+                    if k not in seen:
+                        seen.add(k)
+                        stack.append(k)
+        comps.append(frozenset(comp))
+    return comps
+
+
+def check_rb_impl(ctx, op, f):
+    """the PROVED properties of ring building, stated on the implementation's output (independent of the model)"""
+    short = op if len(op) <= 300 else op[:300] + '...'
+    replay = {'kind': 'counterexample', 'op': op, 'impl': f['raw'][:4000]}
+
+    def bad(key, what):
+        viol(ctx, 'rb-%s:%s' % (key, short[:80]), '%s: %s -> %s' % (what, short, f['raw'][:600]), replay)
+        return False
+    v = [int(t) for t in op.split()[1:]]
+    inp = [nseg((v[i], v[i + 1]), (v[i + 2], v[i + 3])) for i in range(0, len(v), 4)]
+    odd = odd_segments(inp)
+    if int(f['n']) != len(odd):
+        return bad('segments', 'segment list after duplicate cancellation has %s segments, %d have odd multiplicity' % (f['n'], len(odd)))
+    if not odd:
+        ctx.count('rb:nothing-left')
+        return True
+    pair = first_meeting_pair(odd)
+    if (int(f['ix']) > 0) != (pair is not None):
+        return bad('intersections', 'find_intersections=%s but the oracle says crossing pair = %s' % (f['ix'], pair))
+    if pair is not None:
+        ctx.count('rb:crossing')
+        return True
+    segs = parse_seglist(f['segs'])
+    if sorted(segs) != odd:
+        return bad('segments', 'segment list is not the list of odd-multiplicity segments')
+    n = len(segs)
+    # stage A: m_locations
+    locs = parse_entries(f['locs'])
+    if sorted(locs) != [(i, r) for i in range(n) for r in (False, True)]:
+        return bad('locations-perm', 'm_locations is not a permutation of all (item, reverse) pairs')
+    keyed = [((segs[i][1] if r else segs[i][0]), i, r) for i, r in locs]
+    if keyed != sorted(keyed):
+        return bad('locations-order', 'm_locations is not sorted by location with ties in push order (stable)')
+    deg = {}
+    for a, b in segs:
+        deg[a] = deg.get(a, 0) + 1
+        deg[b] = deg.get(b, 0) + 1
+    oddn = sorted(p for p, d in deg.items() if d % 2 == 1)
+    split = sorted(p for p, d in deg.items() if d >= 4)
+    if parse_locs(f['opens']) != oddn or int(f['open']) != len(oddn) or (f['ret'] == '1') != (not oddn):
+        return bad('open-rings', 'open ends reported %s (ret=%s), nodes of odd degree %s' % (f['opens'], f['ret'], oddn))
+    if parse_locs(f['splits']) != split:
+        return bad('split-locations', 'm_split_locations = %s, nodes of degree >= 4: %s' % (f['splits'], split))
+    if oddn:
+        ctx.count('rb:open-ring')
+        return True
+    comps = components(segs)
+    if f['kind'] == 'simple':
+        ctx.count('rb:simple')
+        if 'rings' not in f:
+            return bad('simple-no-rings', 'simple case produced no rings')
+        rings = []
+        for tok in f['rings'].split('|'):
+            k, ent, sm = tok.split(':')
+            rings.append((k, parse_entries(ent), int(sm)))
+        used = sorted(i for _, ent, _ in rings for i, _ in ent)
+        if used != list(range(n)):
+            return bad('partition', 'the rings do not contain every segment exactly once')
+        area = []
+        for idx, (k, ent, sm) in enumerate(rings):
+            pts = [entry_start_stop(segs, ent[0])[0]]
+            for e in ent:
+                st, sp = entry_start_stop(segs, e)
+                if st != pts[-1]:
+                    return bad('chain', 'ring %d is not a chain (segment %s does not start where the previous one stopped)' % (idx, e))
+                pts.append(sp)
+            if pts[0] != pts[-1]:
+                return bad('closed', 'ring %d is not closed' % idx)
+            if len(ent) < 3:
+                return bad('min3', 'ring %d has fewer than 3 segments' % idx)
+            if frozenset(i for i, _ in ent) not in comps:
+                return bad('component', 'ring %d is not a connected component of the segment graph' % idx)
+            if shoelace(pts) != sm:
+                return bad('sum', 'm_sum of ring %d is %d, shoelace sum %d' % (idx, sm, shoelace(pts)))
+            if (k == 'O' and sm <= 0) or (k != 'O' and sm >= 0):
+                return bad('orientation', 'ring %d (%s) has m_sum %d after fix_direction' % (idx, k, sm))
+            if k != 'O':
+                oi = int(k[1:])
+                if oi >= idx or rings[oi][0] != 'O':
+                    return bad('outer-link', 'inner ring %d is attached to ring %d which is not an earlier outer ring' % (idx, oi))
+            area.append((k, pts, idx))
+        if rings[0][0] != 'O' or 0 not in [i for i, _ in rings[0][1]]:
+            return bad('first-ring', 'the first ring is not an outer ring containing the minimum segment')
+        ctx.count('rb:simple:rings=%s,inner=%s' % (min(len(rings), 9), min(sum(1 for k, _, _ in rings if k != 'O'), 9)))
+        # nesting: judged like an assembled area (outer rings followed by their inner rings)
+        out = []
+        for k, pts, idx in area:
+            if k == 'O':
+                out.append(('O', pts))
+                for k2, pts2, _ in area:
+                    if k2 == 'I%d' % idx:
+                        out.append(('I', pts2))
+        jb = judge_area(odd, out)
+        if jb == ['inner-not-in-outer'] and near_coincident_heights(out):
+            viol(ctx, KNOWN_ROUND_KEY, 'create_rings_simple_case: an inner ring is attached to an outer ring that does not contain it; below its minimum '
+                 'node two outer rings pass at heights < 1e-6 apart (find_enclosing_ring compares doubles). Input: %s -> %s' % (short, f['raw'][:600]),
+                 dict(replay, failing_clauses=jb))
+        elif jb:
+            return bad('invalid-nesting', 'the rings of the simple case violate the validity spec (%s)' % ','.join(jb))
+        return True
+    if f['kind'] == 'toomany':
+        ctx.count('rb:over-100-split-locations')
+        return True
+    if f['kind'] != 'complex' or 'pieces' not in f:
+        return bad('no-case', 'neither simple nor complex case taken')
+    ctx.count('rb:complex')
+    pieces = [parse_entries(t) for t in f['pieces'].split('|')]
+    used = sorted(i for p in pieces for i, _ in p)
+    if used != list(range(n)):
+        return bad('pieces-partition', 'the partial rings do not contain every segment exactly once')
+    splitset = set(split)
+    for idx, ent in enumerate(pieces):
+        st0 = entry_start_stop(segs, ent[0])[0]
+        cur = st0
+        for j, e in enumerate(ent):
+            st, sp = entry_start_stop(segs, e)
+            if st != cur:
+                return bad('piece-chain', 'partial ring %d is not a chain' % idx)
+            if j > 0 and st in splitset:
+                return bad('piece-through-split', 'partial ring %d runs through the split location %s' % (idx, st))
+            cur = sp
+        if cur != st0 and (cur not in splitset or st0 not in splitset):
+            return bad('piece-end', 'partial ring %d is open but does not end in split locations on both sides' % idx)
+    ctx.count('rb:complex:pieces=%s,splits=%s' % (min(len(pieces), 9) if len(pieces) < 10 else '10+', min(len(split), 9) if len(split) < 10 else '10+'))
+    # the final rings of the REAL create_rings_complex_case are chains of these pieces
+    fin = f.get('final', '')
+    if fin.startswith('1:'):
+        finals = [parse_entries(t) for t in fin[2:].split('|')]
+        pos = {}
+        for ri, ent in enumerate(finals):
+            for k, (i, _) in enumerate(ent):
+                pos[i] = (ri, k)
+        for idx, ent in enumerate(pieces):
+            rs = set(pos[i][0] for i, _ in ent)
+            if len(rs) != 1:
+                return bad('piece-split-over-rings', 'partial ring %d is spread over several final rings' % idx)
+            ks = [pos[i][1] for i, _ in ent]
+            L = len(finals[next(iter(rs))])
+            fwd = all((ks[j + 1] - ks[j]) % L == 1 for j in range(len(ks) - 1))
+            bwd = all((ks[j] - ks[j + 1]) % L == 1 for j in range(len(ks) - 1))
+            if not (fwd or bwd):
+                return bad('piece-not-contiguous', 'partial ring %d is not a contiguous chain of a final ring' % idx)
+        ctx.count('rb:complex:final-rings-checked')
+    return True
+
+
+def gen_rb_inputs(ctx, quick):
+    """segment lists for the rb stream: (family, [segments], group)"""
+    rng = ctx.rng
+    out = []
+    gid = [0]
+
+    def variants(name, segs, nvar):
+        gid[0] += 1
+        base = list(segs)
+        out.append((name, base, gid[0]))
+        for _ in range(nvar):
+            sv = [(b, a) if rng.chance(1, 2) else (a, b) for a, b in base]
+            pts = sorted(set(p for s in base for p in s))
+            for _k in range(rng.below(3)):
+                a = rng.choice(pts)
+                b = rng.choice(pts)
+                if a != b:
+                    sv += [(a, b), (b, a)] if rng.chance(1, 2) else [(a, b), (a, b)]
+            rng.shuffle(sv)
+            out.append((name, sv, gid[0]))
+
+    nvalid = 700 if quick else 40000
+    for _ in range(nvalid):
+        rings, name = gen_valid_rings(rng, quick)
+        if rings is None:
+            continue
+        segs = [s for r in rings for s in ring_segs(r)]
+        variants(name, segs, rng.choice([0, 1, 1, 2]))
+        if rng.chance(1, 4) and len(segs) > 3:
+            k = rng.below(len(segs))
+            variants(name + '-minus-segment', segs[:k] + segs[k + 1:], 0)
+        if rng.chance(1, 6):
+            # the same with one segment three times (one copy survives) and one twice (cancels)
+            k = rng.below(len(segs))
+            j = rng.below(len(segs))
+            variants(name + '-dups', segs + [segs[k], segs[k]] + ([segs[j]] if j != k else []), 1)
+    # non-touching nests: the simple case with find_enclosing_ring at every depth, small and huge coordinates
+    for _ in range(500 if quick else 30000):
+        size = rng.choice([12, 16, 24, 32, 48])
+        rings, meta = gen_nested(rng, size, rng.choice([2, 3, 4, 5]), rng.choice([4, 8, 12, 16]))
+        if not rings or not valid_ringset(rings):
+            continue
+        rings = affine(rng, rings, big=rng.chance(1, 2))
+        variants('simple-nested', [s for r in rings for s in ring_segs(r)], 1 if rng.chance(1, 3) else 0)
+    # every degree pattern on tiny grids: closed walks (figure-eights, touching loops), open chains, soups
+    for _ in range(900 if quick else 60000):
+        g = rng.choice([3, 3, 4, 5])
+        segs = []
+        for _w in range(1 + rng.below(3)):
+            nn = 3 + rng.below(6)
+            ps = []
+            while len(ps) < nn:
+                p = (rng.below(g), rng.below(g))
+                if not ps or ps[-1] != p:
+                    ps.append(p)
+            if ps[0] != ps[-1] and rng.chance(4, 5):
+                ps.append(ps[0])
+            segs += [(ps[i], ps[i + 1]) for i in range(len(ps) - 1)]
+        variants('walks', segs, 1 if rng.chance(1, 4) else 0)
+    # explicit figure-eights / bow-ties with a node at the crossing, and chains of them
+    for _ in range(60 if quick else 2000):
+        k = 1 + rng.below(4)
+        segs = []
+        x = 0
+        for _j in range(k + 1):
+            w = 1 + rng.below(3)
+            h = 1 + rng.below(3)
+            loop = [(x, 0), (x + w, h), (x + 2 * w, 0), (x + w, -h), (x, 0)] if rng.chance(1, 2) else [(x, 0), (x + 2 * w, h), (x + 2 * w, -h), (x, 0)]
+            segs += ring_segs(loop)
+            x += 2 * w
+        variants('figure-eight', segs, 1)
+    return out
+
+
+def ring_building_stream(ctx, hbin, model_bin, quick):
+    rng = ctx.rng
+    inputs = []
+    cdir = os.path.join(vlib.ROOT, 'corpus', 'C10')
+    if os.path.isdir(cdir):
+        for fn in sorted(os.listdir(cdir)):
+            if fn.endswith('.ops'):
+                with open(os.path.join(cdir, fn)) as fh:
+                    for l in fh:
+                        l = l.strip()
+                        if l.startswith('rb '):
+                            inputs.append(('corpus:' + fn, l, None))
+    for name, segs, g in gen_rb_inputs(ctx, quick):
+        segs = [s for s in segs if s[0] != s[1] and max(abs(c) for p in s for c in p) <= B29]
+        if segs:
+            inputs.append((name, rb_op(segs), g))
+    ops = [op for _, op, _ in inputs]
+    text = '\n'.join(ops) + '\n'
+    res = {}
+    import threading
+
+    def runner(key, cmd):
+        try:
+            res[key] = ctx.run_lines(cmd, text, timeout=600)
+        except Exception as e:   # timeout
+            res[key] = (-1, [], 'exception: %r' % (e,))
+    th = [threading.Thread(target=runner, args=('impl', [hbin]))]
+    if model_bin:
+        th.append(threading.Thread(target=runner, args=('model', [model_bin])))
+    for t in th:
+        t.start()
+    for t in th:
+        t.join()
+    rc_, impl, se = res['impl']
+    if rc_ != 0 or len(impl) != len(ops):
+        # the harness flushes before every rb op and a watchdog ends it after 20 s: the op it died on is the next one
+        if len(impl) < len(ops):
+            op = ops[len(impl)]
+            viol(ctx, 'rb-crash:' + op[:90], 'the real ring-building code crashes, runs out of memory or does not terminate within 20 s (rc=%s %s) on `%s`'
+                 % (rc_, se[-200:], op[:600]), {'kind': 'counterexample', 'op': op, 'stderr': se[-2000:]})
+        else:
+            viol(ctx, 'harness-crash:rb', 'harness exited %d after %d of %d rb ops: %s' % (rc_, len(impl), len(ops), se[-300:]),
+                 {'kind': 'harness-crash', 'stderr': se[-2000:]}, found_input=False)
+            return
+        # the lines printed before the crash are still judged
+        inputs = inputs[:len(impl)]
+        ops = ops[:len(impl)]
+        res.pop('model', None)
+        if not ops:
+            return
+    ctx.count('op:rb', len(ops))
+    ctx.sample(ops[0][:400])
+    ctx.sample(ops[len(ops) // 2][:400])
+    parsed = []
+    for (name, op, g), line in zip(inputs, impl):
+        ctx.note_case(op)
+        ctx.count('rb-family:' + name)
+        try:
+            if line.startswith('exception:'):
+                parsed.append({'raw': line, 'kind': 'exception'})
+                viol(ctx, 'rb-crash:' + op[:90], 'the real ring-building code throws %s on `%s`' % (line, op[:600]), {'kind': 'counterexample', 'op': op, 'impl': line})
+                continue
+            f = parse_rb(line)
+            parsed.append(f)
+            check_rb_impl(ctx, op, f)
+        except Exception as e:
+            parsed.append({'raw': line, 'kind': 'unparsable'})
+            viol(ctx, 'rb-output:' + op[:80], 'unexpected harness output %r for `%s`: %s' % (e, op[:300], line[:300]), {'kind': 'harness', 'op': op}, found_input=False)
+    # order independence: the same segment multiset in another order / direction / with cancelling pairs gives the SAME line
+    groups = {}
+    for (name, op, g), line in zip(inputs, impl):
+        if g is not None:
+            groups.setdefault(g, []).append((op, line))
+    for g, members in groups.items():
+        ref = members[0]
+        for op, line in members[1:]:
+            if line != ref[1]:
+                viol(ctx, 'rb-order-dependence:%s' % ref[0][:80], 'the same segment multiset listed in another order/direction gives different ring-building results:\n  A: %s -> %s\n  B: %s -> %s'
+                     % (ref[0][:400], ref[1][:400], op[:400], line[:400]), {'kind': 'counterexample', 'op': op, 'op_reference': ref[0]})
+                break
+        if len(members) > 1:
+            ctx.count('rb:order-groups')
+    if 'model' in res:
+        rcm, model, sem = res['model']
+        impl_c = [l.split(' final=')[0] for l in impl]
+        dis = ctx.diff_streams('c10-ring-building-model-vs-impl', ops, impl_c, model)
+        if dis and not [v for v in ctx.violations if v.key.startswith('rb-')]:
+            i, op, a, b = dis[0]
+            viol(ctx, 'correspondence:rb:' + op[:90],
+                 'model and implementation disagree on ring building (%d lines, first: `%s`\n  impl =%s\n  model=%s) and no property monitor fired on the implementation'
+                 % (len(dis), op[:400], a[:600], b[:600]), {'kind': 'broken-correspondence', 'stream': 'c10-ring-building-model-vs-impl', 'first': dis[:5]}, found_input=False)
+
+
 def run(ctx):
     rng = ctx.rng
     quick = ctx.tier == 'quick'
@@ -1037,12 +1438,26 @@ def run(ctx):
                 'extract/ring: random ways and rings; asm: generated way sets (valid multipolygons cut into ways, permuted, reversed, with '
                 'cancelling duplicate pairs; the same with a crossing / an open ring; random closed-walk soups); every asm input is decided by an '
                 'independent oracle and every produced area is judged by the oracle and by the Lean specification `Valid`. '
+                'rb: ring building step by step on segment lists (valid multipolygons nested to depth 5 / touching / checkerboards / fans / cell boundaries, '
+                'the same minus a segment, with triple and double segments, closed and open walks on tiny grids, figure-eights; each also shuffled, with '
+                'segment directions swapped and cancelling pairs added): m_locations, open-ring reports, m_split_locations, the rings of the simple case '
+                '(segment, reverse) with outer/inner link and m_sum, the partial rings of the complex case — diffed exactly against the model, and judged by '
+                'monitors that state the proved properties on the output of the real code. '
                 'distinct = distinct op lines (seg lines with both segments equal or disjoint bounding boxes are counted as trivial)')
     ctx.assumptions += [
         'coordinates within +-2^29 (the property quantifier): int64 intermediates cannot overflow (theorem no_overflow)',
         'at most 100 touching points (BasicAssembler::max_split_locations); inputs above that are generated rarely and not judged',
         'the intersection POINT returned by calculate_intersection for a proper crossing (float arithmetic) is not modelled, only the decision',
-        'ring building (add_new_ring*, find_candidates, join_connected_rings, find_enclosing_ring) is NOT proved: its output is judged by the executable spec on generated inputs',
+        'ring building: create_locations_list, find_split_locations, get_next_segment, add_new_ring, create_rings_simple_case, add_new_ring_complex and the cutting '
+        'loops of create_rings_complex_case are modelled and proved (termination, closed rings, >= 3 segments, partition, connected components, orientation); '
+        'find_enclosing_ring (double arithmetic) is modelled executably with Lean Float and compared bit-exactly through its effects, but nothing is proved about '
+        'which outer ring it picks; try_to_merge / join_connected_rings / find_candidates / find_inner_outer_complex are NOT modelled: their output is judged by the executable spec',
+        'locations in segments are valid() (extract_segments_from_way skips the others), in particular never the undefined location (2147483647, 2147483647) '
+        'that find_split_locations uses as initial previous_location',
+        'std::stable_sort / std::lower_bound / std::equal_range behave as specified (model: stable insertion sort, first element not smaller, elements neither smaller nor larger); '
+        'theorem locations_list_unique shows the stable-sorted list is unique',
+        'm_sum is an unbounded integer in the model; the int64 partial sums of the real code can exceed 2^63 only for rings with > 16 segments whose partial polygons wind '
+        'several times around a region of ~2^60 units (not generated); the final sum fits whenever twice the ring area does',
     ]
     ctx.trusted += ['hand transcription of node_ref_segment.hpp / segment_list.hpp / proto_ring.hpp into lean/Osmium/Model/Area.lean, checked by the correspondence streams',
                     'harness/c10.cpp compiled with -fno-access-control (reads private members, does not change behaviour)']
@@ -1074,6 +1489,8 @@ def run(ctx):
                 evaluate_case(ctx, case, op, parse_asm(impl[0]), None, None)
             elif op.startswith('seg') and impl:
                 check_seg_line(ctx, op, impl[0])
+            elif op.startswith('rb') and impl:
+                check_rb_impl(ctx, op, parse_rb(impl[0]))
         return
 
     # ---- 3. correspondence (a): segment functions ------------------------------------------------------
@@ -1238,6 +1655,9 @@ def run(ctx):
                           % (len(dis), op[:300], a[:300], b[:300]), {'kind': 'broken-correspondence', 'stream': 'c10-segments-model-vs-impl', 'first': dis[:5]}, found_input=False)
     elif proof_ok:
         viol(ctx, 'model-driver-build', 'model driver does not build', {'kind': 'broken-correspondence'}, found_input=False)
+
+    # ---- 4b. ring building step by step (before the assembler runs: a defect there is reported at its origin) ----
+    ring_building_stream(ctx, hbin, model_bin, quick)
 
     # ---- 5. assembler runs ------------------------------------------------------------------------------
     asm_ops = []
